@@ -15,6 +15,9 @@ CHECKS = {
  "C20": dict(cat="model_checking", sec="4/C20", tech="explicit-state exploration of all histories of reuse actions on the real objects (BFS with Debug-rendering keys to the fixed point, plus exhaustive fixed-length histories), oracle = freshly constructed state",
    text="All histories of length 3 (quick) / 4 (thorough) over 54 unwind actions on one reused UnwindContext (13 FDEs incl. every failure kind, 4 storages) plus BFS to the fixed point over context states; every order of reads into a reused entry buffer incl. injected errors; every sequence of root/child/sibling/abandon on re-rooted EntriesTrees over all ordered trees; clones of 24 iterator types at every position; every resume order of line sequences; every partition of abbreviation offsets x cache strategy. Each step is compared with fresh state.",
    note="Trusted: fresh state as the oracle (results on fresh state are decided by C02-C08). Iterator types that are not Clone are out of the clone clause. Histories longer than the bounds rely on the BFS closure argument (state key = Debug rendering of the whole context)."),
+ "C17": dict(cat="exploration", sec="4/C17", tech="bounded exhaustive enumeration of generated tables (hash indexes, name tables, aranges, pub tables, offset tables, section loaders) with every present and absent key probed against a linear scan of the abstract table",
+   text="Exhaustive over the stated spaces: every key sequence over all residue classes of both hash functions for 2/4/8 (16, 32 in thorough) slot package indexes incl. chains of every length up to full-minus-one and wrap-around, every section-kind subset for index versions 2 and 5, packages whose found unit must equal the standalone unit byte for byte, .debug_names with up to 4 (5) names over colliding hashes x bucket counts {0,1,2,3,4,7} x parent chains x CU/TU references, case-folding hash on every 1-2 byte ASCII string and every Unicode 14 scalar, aranges/pubnames/str_offsets/addr tables over boundary values, and every SectionId through every loader path.",
+   note="Trusted: the abstract table models and encoders in gv/src/bin/index/. The dwp/llvm-dwp/clang corpus comparison in the quantifier is differential testing on real-world input and is not decided here. Tables larger than the bounds rely on the small-scope hypothesis."),
 }
 PLANNED = ["C01","C02","C03","C04","C05","C06","C07","C08","C11","C12","C13","C14","C15","C16","C17","C18","C19","C20"]
 def main():
